@@ -30,7 +30,7 @@ namespace TF.FE
 conversion performed by `frontend::parse`).  Each constructor names one `expect/unwrap/
 unreachable!/unimplemented!/assert!/index` expression of the Rust source. -/
 inductive Site where
-  /-- query.rs:132 `mult.values().nth(2).expect(..)` — **F-6**. -/
+  /-- query.rs:132 `mult.values().nth(1).expect(..)` (was `nth(2)`: **F-6**, fixed). -/
   | opsNth2
   /-- query.rs:139 `unreachable!` on `DocumentOperations::Multiple` with no entries. -/
   | opsMultipleEmpty
@@ -61,7 +61,8 @@ inductive Site where
   -- ---- frontend/validation.rs
   /-- validation.rs:38–39 `assert_eq!(connection.name, node.name)` / `alias`. -/
   | connNodeMismatch
-  /-- validation.rs:68 `schema.vertex_types[pre_coercion_type_name]` — **F-8**. -/
+  /-- validation.rs:68 `schema.vertex_types[pre_coercion_type_name]` (**F-8**, fixed: the index
+  expression was replaced by `.get(..)`; the site no longer exists in the code or the model). -/
   | coercePropertyIndex
   /-- validation.rs:87 `unreachable!()` (coerced-to type is not an object/interface). -/
   | coerceKind
@@ -71,7 +72,7 @@ inductive Site where
   /-- mod.rs:102 `unreachable!()` in `get_field_name_and_type_from_schema`. -/
   | fieldLookup
   /-- mod.rs:130 `unreachable!()` in `get_edge_definition_from_schema` for the root field
-  (`{ __typename }`) — **N-1**. -/
+  (`{ __typename }`: **N-1** / F-C10-1, fixed: validation now refuses that root field). -/
   | rootEdgeLookup
   /-- mod.rs:130 `unreachable!()` in `get_edge_definition_from_schema` elsewhere. -/
   | edgeLookup
@@ -87,7 +88,8 @@ inductive Site where
   /-- mod.rs:309 `root_parameters.unwrap()`. -/
   | rootParametersUnwrap
   /-- mod.rs:399/405 `ir_vertices[&vid]` in `make_duplicated_output_names_error` called from
-  `make_query_component` (mod.rs:581) with that component's vertices only — **N-3**. -/
+  `make_query_component` (**N-3** / F-C10-3, fixed: the call now passes the component's vertices
+  together with those of its folds). -/
   | dupOutputVertexIndex
   /-- the same index expressions when called from `make_ir_for_query` (mod.rs:302) with the
   vertices of all components (`collect_ir_vertices`). -/
@@ -108,7 +110,8 @@ inductive Site where
   | propertyRepeat
   /-- mod.rs:1048 `unreachable!("field name: ..")`. -/
   | fieldKind
-  /-- mod.rs:1111 `unimplemented!("re-transforming ..")` — **F-7**. -/
+  /-- mod.rs:1111 `unimplemented!("re-transforming ..")` (**F-7**: unreachable since the parse layer
+  refuses a second `@transform`). -/
   | retransform
   /-- error.rs:320 `assert!(!v.is_empty())` in `From<Vec<FrontendError>>`. -/
   | emptyErrors
@@ -120,8 +123,8 @@ inductive Site where
   | oneOfListDepth
   /-- filters.rs:243.. `right_type.unwrap()` (binary operator without right operand). -/
   | rightTypeUnwrap
-  /-- filters.rs:250.. `right.unwrap().as_tag().unwrap()` on a *variable* operand — **F-12**
-  (ordering operator on a non-orderable property). -/
+  /-- filters.rs:250.. `right.unwrap().as_tag().unwrap()` on a *variable* operand (**F-12** was
+  the instance in `ordering_types_valid`, fixed: that check now looks at tags only). -/
   | asTagUnwrap
   /-- filters.rs:256.. `tag_name.unwrap()`. -/
   | tagNameUnwrap
@@ -617,8 +620,8 @@ def makeDirectives : List Directive → PRes (List PDir)
     pure (p :: ps)
 
 /-- `make_transform_group(transform, directive_iter)`: the argument is what is left in the
-iterator; the result also carries what is left afterwards, which the `assert!` at query.rs:506
-inspects.  Accumulators are in reverse order. -/
+iterator; the result also carries what is left afterwards, which the `assert!` after the loop
+inspects.  Accumulators are in reverse order.  `retransform` is always `None` since the fix of F-7. -/
 def transformGroupLoop (outs : List OutputDirective) (tags : List TagDirective)
     (filts : List FilterDirective) : List PDir → PRes (TransformGroup × List PDir)
   | [] =>
@@ -627,12 +630,10 @@ def transformGroupLoop (outs : List OutputDirective) (tags : List TagDirective)
   | .filter f :: rest => transformGroupLoop outs tags (f :: filts) rest
   | .output o :: rest => transformGroupLoop (o :: outs) tags filts rest
   | .tag t :: rest => transformGroupLoop outs (t :: tags) filts rest
-  | .transform :: rest => do
-    -- `break Some(Box::new(make_transform_group(xform, directive_iter)?))`
-    let r ← transformGroupLoop [] [] [] rest
-    match r.2 with
-    | [] => pure (.mk outs.reverse tags.reverse filts.reverse (some r.1), [])
-    | _ :: _ => .panic .transformLeftover
+  | .transform :: _ =>
+    -- a second `@transform` is refused (fix of F-7; before it, the rest of the iterator became
+    -- `retransform: Some(Box::new(make_transform_group(..)?))`, which `make_fold` could not handle)
+    .err .UnsupportedDirectivePosition
   | .fold :: _ => .err .UnsupportedDirectivePosition
   | .optional :: _ => .err .UnsupportedDirectivePosition
   | .recurse _ :: _ => .err .UnsupportedDirectivePosition
@@ -829,8 +830,8 @@ def tryGetQueryRoot (doc : Doc) : PRes (FieldHead × List Selection) :=
     match doc.ops with
     | .multiple mult =>
       if mult.length > 1 then
-        -- `mult.values().nth(2).expect(..)`
-        match mult[2]? with
+        -- `mult.values().nth(1).expect(..)` (`nth(2)` before the fix of F-6)
+        match mult[1]? with
         | some _ => .err .MultipleOperationsInDocument
         | none => .panic .opsNth2
       else
